@@ -427,6 +427,8 @@ def check_name_kind(ctx, F):
                 if x.get("k") == "call" and "f" in x and F.fn(x["f"])["name"] in (base, "processRequest"):
                     order.append((x.get("l", 0), F.fn(x["f"])["name"]))
             order = [n for _, n in sorted(order)]
+            if not order and [n for n in calls if n != "stateId"] == [b["name"]]:
+                continue      # immediateX<TState>() forwards to immediateX(stateId<TState>()), which is judged itself
             if order != [base, "processRequest"]:
                 ctx.violation("C02.name-kind", site, "%s (%s)" % (site, F.floc(fid)), "%s is %s, expected [%s, processRequest]" % (b["name"], order, base), {})
             continue
